@@ -494,7 +494,7 @@ def post_block(tier: str, seed: int):
         return None
     from vlib import fuzz
 
-    res = fuzz.run_campaigns('C02', seed, runs=int(os.environ.get('VERIF_FUZZ_RUNS', '3000000')))
+    res = fuzz.run_campaigns('C02', seed, runs=int(os.environ.get('VERIF_FUZZ_RUNS', '1500000')))
     vb = res.pop('violation_bytes', None) if res else None
     if vb:
         case = minimise({'src': 'hex', 'data': vb['data'][:8966].hex(), 'scope': None})
